@@ -27,7 +27,7 @@ ALPHAS = [0.05, 0.05, 0.1, 0.01, 0.25]
 def shards(tier):
     n = 1000 if tier == "quick" else 12000
     return [{"name": m, "mode": m, "examples": n if m != "interleave" else 4 * n}
-            for m in ("pilot", "prefix", "comparison", "polling", "contest", "interleave")]
+            for m in ("pilot", "prefix", "comparison", "polling", "contest", "audit", "raire-estimator", "interleave")]
 
 
 @st.composite
@@ -80,14 +80,14 @@ def strategy(shard):
     @st.composite
     def contestcase(draw):
         N = draw(st.integers(10, 400))
-        k = draw(st.integers(1, 3)) if mode == "contest" else 1
+        k = draw(st.integers(1, 3)) if mode in ("contest", "audit") else 1
         tw = draw(st.integers(N // 3, N - 1))
         rest = N - tw
         tl = [draw(st.integers(0, min(rest, tw - 1))) for _ in range(k)]
         while sum(tl) > rest:
             tl[tl.index(max(tl))] -= 1
         # (ONEAUDIT estimates at contest level need the CVRs themselves; that path is data-driven, not a construction)
-        at = "POLLING" if mode == "polling" else draw(st.sampled_from(["CARD_COMPARISON", "ONEAUDIT"] if mode != "contest" else ["CARD_COMPARISON", "POLLING"]))
+        at = "POLLING" if mode == "polling" else draw(st.sampled_from(["CARD_COMPARISON", "ONEAUDIT"] if mode not in ("contest", "audit") else ["CARD_COMPARISON", "POLLING"]))
         tests = ["alpha-shrink", "alpha-shrink-d10", "alpha-fixed", "bet-agrapa", "bet-fixed", "kw", "km"] + ([] if at == "POLLING" else ["alpha-optcomp"])
         r1 = draw(st.sampled_from([0, 0.001, 0.01, 0.05, 0.2, 1.0])) if at != "POLLING" else None
         r2 = draw(st.sampled_from([0, 0, 0.001, 0.01, 0.1]))
@@ -98,8 +98,19 @@ def strategy(shard):
 
     if mode in ("pilot", "prefix"):
         return pilot()
-    if mode in ("comparison", "polling", "contest"):
+    if mode in ("comparison", "polling", "contest", "audit"):
         return contestcase()
+    if mode == "raire-estimator":
+        @st.composite
+        def rest(draw):
+            N = draw(st.integers(10, 400))
+            tw = draw(st.integers(N // 3, N - 1))
+            tl = draw(st.integers(0, min(N - tw, tw - 1)))
+            return {"mode": mode, "N": N, "tw": tw, "tl": tl, "polling": draw(st.booleans()),
+                    "erate1": draw(st.sampled_from([0, 0.001, 0.01, 0.05, 0.2])), "erate2": draw(st.sampled_from([0, 0, 0.01, 0.1])),
+                    "rlimit": draw(st.sampled_from(ALPHAS))}
+
+        return rest()
     return st.fixed_dictionaries({"mode": st.just("interleave"), "n_small": st.integers(0, 40), "n_med": st.integers(0, 40),
                                   "n_big": st.integers(1, 40), "vals": st.sampled_from([[0, 0.5, 1], [0.1, 1, 2], [0, 0.5, 0.75]])})
 
@@ -190,7 +201,11 @@ def evaluate(case, out):
         crossed = bool(np.any(hist <= alpha))
         if mode == "pilot":
             try:
-                got = nonneg.make_test(cfg).sample_size(x=np.array(x, dtype=float), alpha=alpha)
+                tobj = nonneg.make_test(cfg)
+                if len(x) % 2 == 0:  # the object has been used for another estimate (other pilot, other limit) before
+                    tobj.sample_size(x=np.array(list(reversed(x)) + [x[0]], dtype=float)[: N - 1], alpha=min(0.5, alpha * 2))
+                    out.cls("after-an-earlier-estimate")
+                got = tobj.sample_size(x=np.array(x, dtype=float), alpha=alpha)
             except Exception as e:  # noqa
                 out.lib_exception("sample_size", e)
                 return
@@ -212,6 +227,39 @@ def evaluate(case, out):
             return
         out.expect(got == k, "simulated-estimate!=crossing-of-prefix", lambda: {"got": got, "want": k, "reps": case["reps"], "quantile": case["quantile"]})
         out.nontrivial = k > 1
+        return
+    if mode == "raire-estimator":
+        import types
+
+        from shangrla.core.Audit import Assertion
+        from shangrla.core.NonnegMean import NonnegMean
+        from shangrla.raire import sample_estimator
+
+        N, tw, tl = case["N"], case["tw"], case["tl"]
+        to = N - tw - tl
+        mean = (tw + 0.5 * to) / N  # assorter mean of the winner-vs-loser assorter
+        margin = 2 * mean - 1
+        args = types.SimpleNamespace(erate1=case["erate1"], erate2=case["erate2"], rlimit=case["rlimit"], reps=None, seed=1)
+        out.cls("polling" if case["polling"] else "comparison")
+        try:
+            got = sample_estimator.sample_size(mean, tw, tl, to, args, N, upper_bound=1, polling=case["polling"])
+        except Exception as e:  # noqa
+            out.lib_exception("sample_estimator.sample_size", e)
+            return
+        u = 2 / (2 - margin)
+        if case["polling"]:
+            x = Assertion.interleave_values(tl, to, tw, big=1)
+            t = NonnegMean(test=NonnegMean.alpha_mart, estim=NonnegMean.shrink_trunc, N=N, u=u, eta=mean)
+        else:
+            x = np.full(N, 1 / (2 - margin))
+            if case["erate1"]:
+                x[np.arange(0, N, int(1 / case["erate1"]))] = 0.5 / (2 - margin)
+            if case["erate2"]:
+                x[np.arange(0, N, int(1 / case["erate2"]))] = 0.0
+            t = NonnegMean(test=NonnegMean.alpha_mart, estim=NonnegMean.optimal_comparison, N=N, u=u, eta=mean)
+        want = first_crossing(np.asarray(t.test(np.asarray(x, dtype=float))[1], dtype=float), case["rlimit"], N)
+        out.expect(got == want, "raire-estimator!=first-crossing-on-assumed-data", lambda: {"got": got, "want": want, "N": N, "margin": margin})
+        out.nontrivial = 1 < want
         return
     # ---- contest-level constructions
     try:
@@ -240,7 +288,26 @@ def evaluate(case, out):
             return
         wants[key] = first_crossing(hist, case["risk_limit"], case["N"])
     try:
-        if mode == "contest":
+        if mode == "audit":
+            # audit-level estimate without style information: every contest gets the largest estimate among its (unproved) assertions
+            audit.strata["s"].use_style = False
+            keys = list(con.assertions)
+            proved = keys[0] if (len(keys) > 1 and case["N"] % 2 == 0) else None
+            if proved:
+                con.assertions[proved].proved = True
+            total = audit.find_sample_size({"C": con})
+            want = max(v for k, v in wants.items() if k != proved)
+            out.expect(con.sample_size == want and total == want, "audit-estimate!=max-over-unproved-assertions", lambda: (con.sample_size, total, wants, proved))
+            out.nontrivial = len(set(wants.values())) > 1
+        elif mode == "contest":
+            if case["N"] % 2 == 0 and case["audit_type"] != "POLLING":
+                # an earlier, more pessimistic estimate on the same Contest object (higher assumed error rates)
+                import copy as _copy
+
+                pess = _copy.copy(audit)
+                pess.error_rate_1, pess.error_rate_2 = 0.2, 0.1
+                con.find_sample_size(pess)
+                out.cls("after-an-earlier-estimate")
             got = con.find_sample_size(audit)
             out.expect(got == max(wants.values()) and con.sample_size == got, "contest-estimate!=max-over-assertions", lambda: (got, wants))
             out.nontrivial = len(set(wants.values())) > 1
